@@ -110,7 +110,7 @@ class Prop(PropBase):
         # ---- 4. random resize chains with edits in between
         n_chain = 1500 if tier == "quick" else 20000
         for _ in range(n_chain):
-            style = rng.choice(["grow", "shrink", "mixed", "mixed", "zero"])
+            style = rng.choice(["grow", "shrink", "mixed", "mixed", "zero", "samewidth", "samewidth", "sameheight"])
             if style == "grow":
                 w, h = rng.randrange(0, 4), rng.randrange(0, 4)
             elif style == "shrink":
@@ -138,6 +138,10 @@ class Prop(PropBase):
                     w, h = w + rng.randrange(0, 3), h + rng.randrange(0, 3)
                 elif style == "shrink":
                     w, h = max(0, w - rng.randrange(0, 4)), max(0, h - rng.randrange(0, 3))
+                elif style == "samewidth":
+                    h = rng.choice([0, 1, h, max(0, h - rng.randrange(1, 4)), h + rng.randrange(1, 4), rng.randrange(0, 10)])
+                elif style == "sameheight":
+                    w = rng.choice([0, 1, w, max(0, w - rng.randrange(1, 4)), w + rng.randrange(1, 4), rng.randrange(0, 13)])
                 elif style == "zero" and rng.random() < 0.35:
                     if rng.random() < 0.5:
                         w = 0
